@@ -323,3 +323,100 @@ Proof.
   intros H. inversion H; subst ws. apply andb_prop in K as [K1 K2]. split; [apply conv_items_spec; exact C|]. split; [exact K1|].
   intros U. rewrite U in K2. exact K2.
 Qed.
+
+(* ================= nested array parameters ================= *)
+(* the nested model restricted to leaves is the one-level model *)
+Definition lift_param (p : aparam) : nparam :=
+  {| np_required := ap_required p; np_allow_empty := ap_allow_empty p; np_sep := ap_sep p; np_items := NLeaf (ap_elem p);
+     np_minitems := ap_minitems p; np_maxitems := ap_maxitems p; np_unique := ap_unique p |}.
+Definition lift_outcome (o : aoutcome) : noutcome :=
+  match o with AReject => NReject | AAbsent => NAbsent | ABound vs => NBound (map NV vs) end.
+
+Lemma conv_elems_leaf t l : conv_elems (NLeaf t) l = option_map (map NV) (conv_items t l).
+Proof.
+  induction l as [|x r IH]; [reflexivity|]. cbn [conv_elems conv_elem conv_items].
+  destruct (convert t x) as [v|]; [|reflexivity]. destruct (valid_value t v); [|reflexivity].
+  rewrite IH. destruct (conv_items t r); reflexivity.
+Qed.
+
+Lemma existsb_nv v r : existsb (nvalue_eqb (NV v)) (map NV r) = existsb (value_eq v) r.
+Proof. induction r as [|w r' IHr]; [reflexivity|]. cbn [map existsb]. rewrite IHr. reflexivity. Qed.
+
+Lemma distinct_nvalues_leaf vs : distinct_nvalues (map NV vs) = distinct_values vs.
+Proof.
+  induction vs as [|v r IH]; [reflexivity|]. cbn [map distinct_nvalues distinct_values]. rewrite IH, existsb_nv. reflexivity.
+Qed.
+
+Theorem nested_generalises_flat p rd hk :
+  ap_multi p = false -> bind_nested (lift_param p) rd hk = lift_outcome (bind_array p rd hk).
+Proof.
+  intro M. unfold bind_nested, bind_array, lift_param, must_have, items_of, count_ok, len_ok. cbn [np_required np_allow_empty np_sep np_items np_minitems np_maxitems np_unique].
+  rewrite M. destruct (ap_required p && negb hk); [reflexivity|].
+  destruct (split_by (ap_sep p) (last_raw rd)) as [|i0 ir] eqn:S.
+  - destruct (ap_required p && negb (ap_allow_empty p)); reflexivity.
+  - rewrite conv_elems_leaf. destruct (conv_items (ap_elem p) (i0 :: ir)) as [vs|]; [|reflexivity].
+    cbn [option_map]. rewrite map_length, distinct_nvalues_leaf.
+    destruct (_ && _); reflexivity.
+Qed.
+
+(* whatever reaches the handler: every leaf is the conversion of a text and satisfies the leaf's constraints *)
+Fixpoint leaves_ok (it : nitems) (v : nvalue) {struct it} : bool :=
+  match it, v with
+  | NLeaf t, NV x => valid_value t x
+  | NArr _ _ _ _ inner, NL l => forallb (leaves_ok inner) l
+  | _, _ => false
+  end.
+
+Lemma conv_elem_leaves : forall it raw v, conv_elem it raw = Some (Some v) -> leaves_ok it v = true.
+Proof.
+  induction it as [t|sep mn mx u inner IH]; intros raw v H.
+  - cbn in H. destruct (convert t raw) as [x|]; [|discriminate]. destruct (valid_value t x) eqn:V; [|discriminate].
+    inversion H; subst v. exact V.
+  - cbn [conv_elem] in H. destruct (negb (len_ok mn mx (length (split_by sep raw)))); [discriminate|].
+    destruct (u && negb (distinct_texts (split_by sep raw))); [discriminate|].
+    remember (split_by sep raw) as parts eqn:Ep.
+    match type of H with context [option_map _ (?F parts)] => set (G := F) in *  end.
+    assert (forall l vs, G l = Some vs -> forallb (leaves_ok inner) vs = true) as HF.
+    { induction l as [|x r IHl]; intros vs Hl.
+      - inversion Hl; subst vs. reflexivity.
+      - cbn in Hl. destruct (conv_elem inner x) as [[w|]|] eqn:E; try discriminate.
+        + fold G in Hl. destruct (G r) as [ws|] eqn:Er; [|discriminate].
+          inversion Hl; subst vs. cbn [forallb]. rewrite (IH _ _ E). apply IHl. reflexivity.
+        + apply IHl. exact Hl. }
+    destruct parts as [|p0 pr]; [discriminate|].
+    change (option_map (fun vs => Some (NL vs)) (G (p0 :: pr)) = Some (Some v)) in H.
+    destruct (G (p0 :: pr)) as [vs|] eqn:E; [|discriminate].
+    inversion H; subst v. cbn [leaves_ok]. eapply HF. exact E.
+Qed.
+
+Lemma conv_elems_leaves it : forall l vs, conv_elems it l = Some vs -> forallb (leaves_ok it) vs = true.
+Proof.
+  induction l as [|x r IH]; intros vs H.
+  - inversion H; subst vs. reflexivity.
+  - cbn [conv_elems] in H. destruct (conv_elem it x) as [[w|]|] eqn:E; try discriminate.
+    + destruct (conv_elems it r) as [ws|] eqn:Er; [|discriminate]. inversion H; subst vs.
+      cbn [forallb]. rewrite (conv_elem_leaves _ _ _ E). apply IH. reflexivity.
+    + apply IH. exact H.
+Qed.
+
+Theorem bind_nested_values p rd hk vs : bind_nested p rd hk = NBound vs ->
+  forallb (leaves_ok (np_items p)) vs = true /\
+  len_ok (np_minitems p) (np_maxitems p) (length vs) = true /\ (np_unique p = true -> distinct_nvalues vs = true).
+Proof.
+  unfold bind_nested. destruct (np_required p && negb hk); [discriminate|].
+  destruct (split_by (np_sep p) (last_raw rd)) as [|i0 ir]; [destruct (_ && _); discriminate|].
+  destruct (conv_elems (np_items p) (i0 :: ir)) as [ws|] eqn:C; [|discriminate].
+  destruct (len_ok _ _ _ && _) eqn:K; [|discriminate]. intro H. inversion H; subst ws.
+  apply andb_prop in K as [K1 K2]. split; [eapply conv_elems_leaves; exact C|]. split; [exact K1|].
+  intro U. rewrite U in K2. exact K2.
+Qed.
+
+(* an inner level is accepted only with its item counts in range and, when unique, with parts that differ AS TEXTS *)
+Theorem conv_elem_inner_checks sep mn mx u inner raw o :
+  conv_elem (NArr sep mn mx u inner) raw = Some o ->
+  len_ok mn mx (length (split_by sep raw)) = true /\ (u = true -> distinct_texts (split_by sep raw) = true).
+Proof.
+  cbn [conv_elem]. destruct (len_ok mn mx (length (split_by sep raw))); cbn [negb]; [|discriminate].
+  destruct u; cbn [andb]; [|intros _; split; [reflexivity|discriminate]].
+  destruct (distinct_texts (split_by sep raw)); cbn [negb]; [|discriminate]. intros _. split; reflexivity.
+Qed.
